@@ -392,6 +392,11 @@ class MessageAccumulator:
     async def close(self):
         self._closed = True
         await self.flush()
+        # The linger wakeup is only re-armed or cancelled by ``drain_by_nodes``;
+        # don't leave it scheduled if the sender will not drain again
+        if self._wakeup_handle is not None:
+            self._wakeup_handle.cancel()
+            self._wakeup_handle = None
 
     async def add_message(
         self,
